@@ -574,22 +574,49 @@ func (sc *Scenario) irrFile() string {
 
 func (sc *Scenario) gwFile() string {
 	var b strings.Builder
-	b.WriteString("SID,DATE,Level\n")
+	// the reader takes the first three columns (id, date, level) of rows separated by ',' or ';' and skips one header line,
+	// whatever it says: a third of the files carry another header wording (case, units), further columns behind the third
+	// (an absolute level, a second date, a remark) and / or ';' as separator
+	rs := NewRng(mix(mix(sc.Seed, uint64(sc.Index)), 7272))
+	sep, head, extra := ",", "SID,DATE,Level", 0
+	if rs.Bool(0.33) {
+		if rs.Bool(0.4) {
+			sep = ";"
+		}
+		extra = rs.Range(0, 3)
+		head = pickS(rs, []string{"SID,DATE,Level", "sid,date,level", "SID,Date,Level [dm]", "Soil,Datum,GW_dm", "id,DATE,LEVEL"})
+		head += []string{"", ",Level [m a.s.l.]", ",Level [m a.s.l.],Date (checked)", ",level,date,Remark"}[extra]
+		head = strings.ReplaceAll(head, ",", sep)
+	}
+	row := func(id string, d Date, lvl float64) {
+		fmt.Fprintf(&b, "%s%s%s%s%s", id, sep, FmtDate(d, sc.DateFormat), sep, fmtG(lvl))
+		if extra >= 1 {
+			fmt.Fprintf(&b, "%s%s", sep, fmtG(71.5-lvl/10))
+		}
+		if extra >= 2 {
+			fmt.Fprintf(&b, "%s%s", sep, FmtDate(d.AddDays(400), sc.DateFormat))
+		}
+		if extra >= 3 {
+			fmt.Fprintf(&b, "%sgauge 7", sep)
+		}
+		b.WriteString("\n")
+	}
+	b.WriteString(head + "\n")
 	if sc.OtherField {
-		fmt.Fprintf(&b, "%s,%s,%s\n", "998", FmtDate(sc.Start, sc.DateFormat), "7.5")
+		row("998", sc.Start, 7.5)
 	}
 	id := sc.Soil.ID
 	if sc.GWId != "" {
 		id = sc.GWId // gwId=<id> on the batch line selects the series; the rows under the soil's own id are decoys
 	}
 	for i, p := range sc.GWSeries {
-		fmt.Fprintf(&b, "%s,%s,%s\n", id, FmtDate(p.D, sc.DateFormat), fmtG(p.Level))
+		row(id, p.D, p.Level)
 		if sc.GWId != "" && i%3 != 1 {
-			fmt.Fprintf(&b, "%s,%s,%s\n", sc.Soil.ID, FmtDate(p.D.AddDays(i%2), sc.DateFormat), fmtG(p.Level+2.2))
+			row(sc.Soil.ID, p.D.AddDays(i%2), p.Level+2.2)
 		}
 		if sc.OtherField && i%2 == 0 {
 			// a file sorted by date holds the rows of several soils interleaved
-			fmt.Fprintf(&b, "%s,%s,%s\n", "998", FmtDate(p.D, sc.DateFormat), fmtG(p.Level+3.3))
+			row("998", p.D, p.Level+3.3)
 		}
 	}
 	return b.String()
